@@ -25,7 +25,8 @@ ENGINE = 'E2 small-scope enumeration against an independent stable reference sor
 RULE = ('every table of each family (single key + id column with ids DEscending, so that a merge comparing whole '
         'rows on key ties is visible; compound key + ascending id; key=None lexical with and without id column, '
         'the latter with equal cells of different type; ragged rows: key cell missing, surplus cells, empty rows, '
-        'with id column and (key=None) without, so that short rows tie with explicit-None rows; '
+        'with id column and (key=None) without, so that short rows tie with explicit-None rows, and with compound '
+        'keys listed in non-header order so that a short row lacks the key field listed first (sort and mergesort); '
         'header-field namings for key=None / index keys: int names that look like indices, None, float, duplicate '
         'names, names equal after str()) x '
         'key spellings x the strategy cross product: full = reverse x buffersize {None,1..n+1} given as argument '
@@ -68,6 +69,12 @@ _SEED = 0
 # families: row symbols -> rows
 # ------------------------------------------------------------------------------------------------
 
+def _ko_syms(K3):
+    """Rows (id, k, v) / (id, k) / (id,) with k over K3 and v over {None, i1}."""
+    vs = (None, K3[1])
+    return [('q', (k, v)) for k in K3 for v in vs] + [('q', (k,)) for k in K3] + [('q', ())]
+
+
 def _families(tier, seed):
     K4, K6, K3 = spaces.K4(seed), spaces.K6(seed), spaces.K3(seed)
     thorough = tier == 'thorough'
@@ -91,11 +98,18 @@ def _families(tier, seed):
     # ragged: header (id, k, v); full, short after key, short before key (key cell missing), long, empty
     rsyms = [(sh, k) for k in K4 for sh in ('full', 'after', 'long')] + [('before', None), ('empty', None)]
     fams['ragged'] = dict(hdr=('id', 'k', 'v'), syms=rsyms, maxn=3 if thorough else 2,
-                          keys=[('k', 'core'), (None, 'core'), (('k', 'v'), 'core'), (1, 'lite')])
+                          keys=[('k', 'core'), (None, 'core'), (('k', 'v'), 'core'), (1, 'lite'),
+                                # compound keys NOT in header order: a short row lacks the field listed first
+                                (('v', 'k'), 'lite'), (('v', 'id'), 'lite'), ((2, 0), 'lite')])
+    # compound keys listed in NON-header order on ragged rows whose value column varies (None / number), so that
+    # the place of the padded None inside the key tuple decides the order against full rows
+    fams['ragko'] = dict(hdr=('id', 'k', 'v'), syms=_ko_syms(K3), maxn=3 if thorough else 2,
+                         keys=[(('v', 'k'), 'core'), ((2, 1), 'lite'), (('v', 'id'), 'lite'), (('k', 'v'), 'lite')])
     # a smaller ragged alphabet one row deeper (quick only; thorough covers it with the full alphabet)
     if not thorough:
         r3 = [(sh, k) for k in K3[:2] for sh in ('full', 'long')] + [('before', None), ('empty', None)]
-        fams['ragged3'] = dict(hdr=('id', 'k', 'v'), syms=r3, maxn=3, minn=3, keys=[('k', 'core'), (None, 'core')])
+        fams['ragged3'] = dict(hdr=('id', 'k', 'v'), syms=r3, maxn=3, minn=3,
+                               keys=[('k', 'core'), (None, 'core'), (('v', 'k'), 'lite')])
     # ragged lexical WITHOUT id column (header (a, b)): only here do keys tie, e.g. the short row (x,) against
     # the row (x, None) holding an explicit None, or two long rows that differ in their surplus cell only
     i1 = K3[1]
@@ -123,6 +137,8 @@ def _row(sym, i):
     t = sym[0]
     if t == 'r':
         return tuple(sym[1])
+    if t == 'q':
+        return (i,) + tuple(sym[1])
     if t == 'g':
         # ids DEscending with input position: a merge that falls back to comparing whole rows when keys tie
         # would otherwise reproduce input order by accident (ascending ids)
@@ -175,8 +191,11 @@ def _mfamilies(tier, seed):
                        maxn=3 if thorough else 2, parts=2, keys=[('a', 'b'), ('b', 'a')],
                        hvs=('same', 'extra', 'permuted'), extras=False)
     rs = [(sh, k) for k in K3 for sh in ('full', 'after', 'long')] + [('before', None), ('empty', None)]
-    fams['mr2'] = dict(hdr=('id', 'k', 'v'), syms=rs, maxn=3 if thorough else 2, parts=2, keys=['k', None],
+    fams['mr2'] = dict(hdr=('id', 'k', 'v'), syms=rs, maxn=3 if thorough else 2, parts=2,
+                       keys=['k', None, ('v', 'k')],
                        hvs=('same',), extras=False)
+    fams['mko'] = dict(hdr=('id', 'k', 'v'), syms=_ko_syms(K3), maxn=3 if thorough else 2, parts=2,
+                       keys=[('v', 'k')], hvs=('same',), extras=False)
     if thorough:
         fams['m3'] = dict(hdr=('k', 'id'), syms=[('f', k) for k in K3], maxn=4, parts=3, keys=['k', None],
                           hvs=('same', 'permuted'), extras=False, hforms=('same',))
